@@ -309,6 +309,30 @@ class C11Node(OptNode):
     """a user node class with its own coders (registered after the serializer's first use)"""
 
 
+class C11CatalogNode(OptNode):
+    """a user node class with public attributes whose names contain 'log' but do not start with it: they are
+    ordinary data (saved and restored), unlike log* attributes, which the serializer leaves out by design"""
+    catalog_key = 'none'
+    dialog = None
+
+    def description(self):
+        return '%s<%s|%s>' % (super().description(), self.catalog_key, self.dialog)
+
+
+class C11TopoGraph(OptGraph):
+    """a user graph class whose `topology` decides what connect_nodes does ('chain': a node gets one parent at most)"""
+
+    def __init__(self, *args, **kwargs):
+        super().__init__(*args, **kwargs)
+        self.topology = 'free'
+        self.technology = {'level': 1}
+
+    def connect_nodes(self, node_parent, node_child):
+        if self.topology == 'chain' and len(node_child.nodes_from) >= self.technology['level']:
+            return
+        super().connect_nodes(node_parent, node_child)
+
+
 class C11LogGraph(OptGraph):
     """a user graph class that keeps a logger and an edit journal (the `self.log = default_log(self)` pattern):
     the serializer skips every log* attribute on purpose, the constructor re-creates them when the graph is loaded"""
@@ -465,9 +489,14 @@ def build_graph(spec):
     if user:
         ensure_user_coders()
     level = nested_level(spec['nested']) if spec.get('nested') else None
-    node_cls = C11Node if user else level.Node if level else OptNode
-    for ns in spec['nodes']:
+    attrs = spec.get('attrs')
+    node_cls = C11Node if user else level.Node if level else C11CatalogNode if attrs else OptNode
+    for j, ns in enumerate(spec['nodes']):
         n = node_cls(materialise_content(ns['content']))
+        if attrs:
+            n.catalog_key = attrs['keys'][j % len(attrs['keys'])]
+            if j % 2:
+                n.dialog = {'step': j}
         n.uid = ns['uid']
         objs.append(n)
     for ns, n in zip(spec['nodes'], objs):
@@ -475,6 +504,10 @@ def build_graph(spec):
     kw = {'postprocess_nodes': (level.hook if level else c11_postprocess)} if spec.get('post') else {}
     if level:
         graph = level.Graph(**kw)
+    elif attrs:
+        graph = C11TopoGraph(**kw)
+        graph.topology = attrs['topology']
+        graph.technology = {'level': attrs['level']}
     elif user:
         graph = C11Graph(**kw)
         graph.label = 'user-graph'
@@ -1292,6 +1325,16 @@ def known_uids(spec, ops):
     return k
 
 
+def extra_state(graph):
+    """user attributes that views do not show (and the structural identifier where it cannot hold uuid4 uids)"""
+    st = {'topology': getattr(graph, 'topology', None), 'technology': getattr(graph, 'technology', None),
+          'nodes': [(getattr(n, 'catalog_key', None), getattr(n, 'dialog', None), getattr(n, 'unit', None))
+                    for n in graph.nodes]}
+    if isinstance(graph, C11TopoGraph):
+        st['descriptive_id'] = _try(lambda: graph.descriptive_id)
+    return st
+
+
 def sentinel(tag):
     """a view no graph has: makes the comparison of the original with the loaded copy fail"""
     return ((tag, '', None, (), False),)
@@ -1340,6 +1383,7 @@ def lock_run(spec, ops, via_individual):
     meta_same = (ind_same and type(loaded) is type(graph) and
                  _try(lambda: [type(n) for n in loaded.nodes]) == ('ok', [type(n) for n in graph.nodes]) and
                  getattr(loaded, 'label', None) == getattr(graph, 'label', None) and
+                 _try(lambda: extra_state(loaded)) == _try(lambda: extra_state(graph)) and
                  _try(lambda: loaded.descriptive_id) == _try(lambda: graph.descriptive_id) and
                  _try(lambda: (graph == loaded, loaded == graph)) == ('ok', (True, True)) and
                  _try(lambda: dumps(loaded) == dumps(graph)) == ('ok', True) and
@@ -1355,6 +1399,8 @@ def lock_run(spec, ops, via_individual):
             return None if rec is None else [tuple(fresh.get(x, x) for x in r) for r in rec]
         if _try(lambda: journal(graph, fo)) != _try(lambda: journal(loaded, fl)):
             b = sentinel('JOURNAL-DIFFERS')
+        if _try(lambda: extra_state(graph)) != _try(lambda: extra_state(loaded)):
+            b = sentinel('USER-ATTRIBUTES-DIFFER')
         if ro[0] == 'ok' and rl[0] == 'ok':
             steps.append((op, a, b))
         elif ro[0] == 'exc' and rl[0] == 'exc' and ro[1] == rl[1] and a == b:
@@ -1421,6 +1467,16 @@ def gen_lock_specs(ctx):
             # a user graph class with a constructor-made logger and journal that its editing methods use
             spec['journal'] = True
             spec['kind'] = 'opt'
+        if i % 8 == 2:
+            # user node / graph classes with data attributes named catalog_key, dialog, topology, technology ('log'
+            # inside the name): description() and connect_nodes depend on them; named nodes only, so that the
+            # structural identifier holds no uid and can be compared after every step
+            spec['attrs'] = {'keys': rng.sample(['k1', 'k2', 'k3'], 2), 'topology': rng.choice(['chain', 'free']),
+                             'level': rng.choice([1, 2])}
+            spec['kind'] = 'opt'
+            for ns in nodes:
+                if 'name' not in ns['content']:
+                    ns['content']['name'] = rng.choice(NAMES)
         if i % 8 == 6:
             # user node / graph / individual classes (and, half of the time, a postprocess hook that is a static
             # method) nested 1, 2 or 3 classes deep: class paths with up to four dot-separated parts
@@ -1482,7 +1538,7 @@ def run_lockstep(ctx):
                       duplicate_links=dup, user_postprocess=bool(spec.get('post')), graph_class=spec['kind'],
                       user_coders=bool(spec.get('user')), via_individual=via_ind,
                       journal_graph=bool(spec.get('journal') or spec.get('user')),
-                      nested_classes=spec.get('nested', 0))
+                      nested_classes=spec.get('nested', 0), data_attributes=bool(spec.get('attrs')))
         if not steps:
             ctx.count('lockstep', key=(view_key(vo), 'no-ops'), nontrivial=False, op='none')
         if not r[0]:
